@@ -14,27 +14,41 @@
    call widens the table. *)
 From Tab Require Export Model.Core Model.Cell.
 
-Inductive top :=
-| TCore (o : op item)                          (* a building call, items as given by the caller *)
+(* The machine is generic in what a cell carries (A): the end-to-end theorems
+   use A = item (one unchanging environment); Model/TableMut.v uses A = an item
+   together with the environment it was last read in, to speak about items
+   that are mutated and cells that are updated in place. *)
+Inductive gtop (A : Type) :=
+| TCore (o : op A)                             (* a building call, items as given by the caller *)
 | TSetAlign (n : nat) (a : option align)       (* if c := t.Column(n); c != nil { c.SetProperty(align.PropertyType, a) } *)
 | TSetSkip (n : nat) (s : option skipv).       (* ... SetProperty(properties.Skipable, s) *)
+Arguments TCore {A} o.
+Arguments TSetAlign {A} n a.
+Arguments TSetSkip {A} n s.
 
-Record tstate := mkT {
-  tb_core  : Core.state item;
+Record gtstate (A : Type) := mkT {
+  tb_core  : Core.state A;
   tb_align : list (option align);      (* per column record, index 0 = the defaults column *)
   tb_skip  : list (option skipv)
 }.
+Arguments mkT {A}.
+Arguments tb_core {A}.
+Arguments tb_align {A}.
+Arguments tb_skip {A}.
 
 (* fresh column records carry no property *)
 Definition pad_none {B} (l : list (option B)) (n : nat) : list (option B) := l ++ repeat None (n - length l).
 
-Definition tinit : tstate := mkT Core.init [None] [None].
+Section Machine.
+Context {A : Type}.
+
+Definition tinit : gtstate A := mkT Core.init [None] [None].
 
 (* Column(n) != nil, read off the core model (never a panic inside wf histories) *)
-Definition has_column (st : Core.state item) (n : nat) : bool :=
+Definition has_column (st : Core.state A) (n : nat) : bool :=
   match column_exists st (Z.of_nat n) with Ok b => b | _ => false end.
 
-Definition tstep (st : tstate) (o : top) : tstate :=
+Definition tstep (st : gtstate A) (o : gtop A) : gtstate A :=
   match o with
   | TCore c =>
       let core' := Core.step (tb_core st) c in
@@ -45,10 +59,10 @@ Definition tstep (st : tstate) (o : top) : tstate :=
       if has_column (tb_core st) n then mkT (tb_core st) (tb_align st) (upd (tb_skip st) n s) else st
   end.
 
-Definition trun (h : list top) : tstate := fold_left tstep h tinit.
+Definition trun (h : list (gtop A)) : gtstate A := fold_left tstep h tinit.
 
-(* what a renderer sees (Model/View.v); f is what a cell shows of its item *)
-Definition table_view (f : item -> vcell) (st : tstate) : view :=
+(* what a renderer sees (Model/View.v); f is what a cell shows of what it carries *)
+Definition table_view (f : A -> vcell) (st : gtstate A) : view :=
   let core := tb_core st in
   mkView (t_ncols core)
          (option_map (map (fun c => f (c_item c))) (t_header core))
@@ -56,5 +70,10 @@ Definition table_view (f : item -> vcell) (st : tstate) : view :=
          (tb_align st) (tb_skip st).
 
 (* the building calls of a history *)
-Definition core_ops (h : list top) : list (op item) :=
+Definition core_ops (h : list (gtop A)) : list (op A) :=
   flat_map (fun o => match o with TCore c => [c] | _ => [] end) h.
+End Machine.
+
+(* the machine over items *)
+Notation top := (gtop item).
+Notation tstate := (gtstate item).
